@@ -10,6 +10,8 @@ Steps (scratch worktree of /repo HEAD, removed afterwards):
 Writes /verif/seeded/<seeded id>/{patch.diff, demo_test.go, README.md, meta.json}."""
 import sys, os, subprocess, json, re, shutil, time, glob
 
+V = os.path.dirname(os.path.dirname(os.path.abspath(__file__)))
+
 def sh(cmd, **kw):
     return subprocess.run(cmd, stdout=subprocess.PIPE, stderr=subprocess.STDOUT, text=True, **kw)
 
@@ -56,7 +58,7 @@ def main():
         meta["checks"] = []
         for pid in pids:
             t = time.time()
-            r = sh(["./check", pid, "quick"], cwd="/verif", env=dict(os.environ, VERIF_REPO=wt, VERIF_BUILD=vb, VERIF_SEED="1"))
+            r = sh(["./check", pid, "quick"], cwd=V, env=dict(os.environ, VERIF_REPO=wt, VERIF_BUILD=vb, VERIF_SEED="1"))
             out = r.stdout
             sigs = sorted(set(re.findall(r"violation sig=([^\s:]+:[^\s:]+)", out)))
             broken = [list(x) for x in re.findall(r"\[check\] broken (\w+): (.{0,160})", out)][:3]
@@ -68,7 +70,7 @@ def main():
         sh(["git", "-C", "/repo", "worktree", "remove", "--force", wt])
         shutil.rmtree(vb, ignore_errors=True)
         sh(["git", "-C", "/repo", "worktree", "prune"])
-    out = os.path.join("/verif/seeded", sid)
+    out = os.path.join(V, "seeded", sid)
     os.makedirs(out, exist_ok=True)
     for f in ["patch.diff", "README.md"] + [os.path.basename(d) for d in glob.glob(os.path.join(mdir, "*_test.go"))]:
         if os.path.exists(os.path.join(mdir, f)):
